@@ -54,6 +54,7 @@ func init() {
 		Parts: []Part{
 			{Name: "model", Shards: 12, Fn: func(c *Ctx) { cbModelPart(c, "C12") }},
 			{Name: "freeramp", Race: true, Shards: 4, Fn: c12FreeRamp},
+			{Name: "longramp", Shards: 6, Fn: c12LongRamp},
 		},
 	})
 	register(&Property{
@@ -678,4 +679,73 @@ func c18CycleEffects(c *Ctx) {
 		}
 	})
 	c.Require("cycleeffects_nontrivial", 2)
+}
+
+// c12LongRamp: recovery periods of hours with hundreds of thousands of arrivals (bursts and long idle gaps): every
+// decision is compared with the exact ramp (128-bit integer arithmetic), sequentially, without controlled handlers.
+func c12LongRamp(c *Ctx) {
+	c.Cases("longramp", c.N(8, 150), func(i int, r *rand.Rand) {
+		D := pick(r, []time.Duration{time.Hour, 6 * time.Hour, 24 * time.Hour, 10 * time.Minute})
+		fb := time.Second
+		freeze(baseTime.Add(time.Duration(r.Int64N(1e9))))
+		defer unfreeze()
+		f := newFreeBreaker("NetworkErrorRatio() > 0.5", fb, D, time.Second)
+		serve := func() bool { // true: reached the handler
+			h0 := f.handled.Load()
+			f.cb.ServeHTTP(httptest.NewRecorder(), httptest.NewRequest("GET", "http://x.test/", nil))
+			return f.handled.Load() != h0
+		}
+		serve() // 502: trips at the first completion
+		if s, _, _ := (&cbDriver{cb: f.cb}).observe(); s != "tripped" {
+			return
+		}
+		f.status.Store(200)
+		advance(fb)
+		m := &cbModel{cfg: cbConfig{Recovery: D}, rcStart: now()}
+		total := c.N(60000, 400000) + r.IntN(100000)
+		done, amb := 0, 0
+		for done < total {
+			// a burst at one instant, then a gap
+			burst := 1 + r.IntN(20000)
+			t := now()
+			if t.Sub(m.rcStart) > D {
+				break
+			}
+			for k := 0; k < burst && done < total; k++ {
+				want := m.rampDecision(t)
+				got := serve()
+				done++
+				if want == -1 {
+					amb++
+				} else if got != (want == 1) {
+					c.Violation("ramp", sfmt("recovery %v: arrival %d at elapsed %v with %d passed / %d refused so far: breaker %s it, the ramp 0.5*elapsed/duration says %s", D, done, t.Sub(m.rcStart), m.a, m.d,
+						map[bool]string{true: "passed", false: "refused"}[got], map[bool]string{true: "pass", false: "refuse"}[want == 1]), nil)
+					return
+				}
+				if got {
+					m.a++
+				} else {
+					m.d++
+				}
+			}
+			var gap time.Duration
+			switch r.IntN(4) {
+			case 0:
+				gap = time.Duration(r.Int64N(int64(D) / 3))
+			case 1:
+				gap = time.Duration(r.Int64N(int64(time.Second)))
+			default:
+				gap = time.Duration(r.Int64N(int64(D) / 200))
+			}
+			advance(gap)
+		}
+		c.Eval()
+		c.Count("longramp_decisions_compared", int64(done-amb))
+		c.Count("longramp_decisions_ambiguous", int64(amb))
+		if m.a > 0 && m.d > 0 {
+			c.Nontrivial(sfmt("longramp/%v/%d/%d/%d", D, done, m.a, i))
+			c.Count("longramp_nontrivial", 1)
+		}
+	})
+	c.Require("longramp_nontrivial", 2)
 }
